@@ -475,7 +475,7 @@ class World:
         for k in ('fid', 'lf', 'h_target'):
             pass
         o = op['op']
-        if o in ('add_lf', 'write'):
+        if o in ('add_lf', 'write', 'set_sul'):
             need.append('file:' + op['fid'])
         if o in ('add', 'nf_data', 'read_props'):
             need.append('lf:' + op['lf'])
@@ -526,7 +526,9 @@ class World:
 
     def op_nf_data(self, op, r):
         lf = self.objs['lf:' + op['lf']]
-        lf.add_no_format_frame_data(self.codec.dec(op['nf']), self.codec.dec(op['data']))
+        rec = lf.add_no_format_frame_data(self.codec.dec(op['nf']), self.codec.dec(op['data']))
+        if op.get('h'):
+            self.objs[op['h']] = rec
 
     def op_set(self, op, r):
         obj = self.objs[op['h']]
@@ -541,6 +543,11 @@ class World:
     def op_set_prop(self, op, r):
         obj = self.objs[op['h']]
         setattr(obj, op['prop'], self.codec.dec(op['v']))
+
+    def op_set_sul(self, op, r):
+        """Change a public attribute of the file's storage unit label (e.g. the sequence number of the next unit of a set)."""
+        f = self.objs['file:' + op['fid']]
+        setattr(f.storage_unit_label, op['prop'], self.codec.dec(op['v']))
 
     def op_set_attrs(self, op, r):
         obj = self.objs[op['h']]
